@@ -1030,6 +1030,16 @@ fn c19_feats(ty: &str, call: &str, wf: bool) -> Feats {
     vec![("family", FAM.into()), ("type", ty.into()), ("call", call.into()), ("octets", if wf { "utf8".into() } else { "ill-formed".into() })]
 }
 
+/// Features of a panic: additionally where it was raised (the recorded findings are panics inside the
+/// pct-str crate; a panic raised by the library's own code is something else).
+fn c19_total_feats(ty: &str, call: &str, wf: bool, m: &dyn std::fmt::Display) -> Feats {
+    let mut f = c19_feats(ty, call, wf);
+    let msg = m.to_string();
+    let site = msg.rsplit('@').next().unwrap_or("");
+    f.push(("panic_in", if site.contains("pct-str") || site.contains("pct_str") { "pct-str".into() } else if site.contains("utf8-decode") || site.contains("utf8_decode") { "utf8-decode".into() } else { "elsewhere".into() }));
+    f
+}
+
 macro_rules! c19_typed {
     ($ctx:expr, $name:literal, $T:ty, $s:expr, $via:expr) => {{
         let s: &str = $s;
@@ -1043,7 +1053,7 @@ macro_rules! c19_typed {
             // the view itself
             let view = match crate::ctx::guard(|| v.as_pct_str()) {
                 Ok(x) => x,
-                Err(m) => { $ctx.fail("C19.total", c19_feats($name, "as_pct_str", wf), format!("as_pct_str panicked: {}", m)); return; }
+                Err(m) => { $ctx.fail("C19.total", c19_total_feats($name, "as_pct_str", wf, &m), format!("as_pct_str panicked: {}", m)); return; }
             };
             let dview: &_ = &**v; // Deref<Target = PctStr>
             // octets (bounded: at most len items)
@@ -1052,11 +1062,11 @@ macro_rules! c19_typed {
                 Ok(got) => if got != want {
                     $ctx.fail("C19.bytes", c19_feats($name, "bytes", wf), format!("{} {}: bytes() = {:02x?}, expected {:02x?}", $name, show(s.as_bytes()), got, want));
                 },
-                Err(m) => $ctx.fail("C19.total", c19_feats($name, "bytes", wf), format!("{} {}: bytes() panicked: {}", $name, show(s.as_bytes()), m)),
+                Err(m) => $ctx.fail("C19.total", c19_total_feats($name, "bytes", wf, &m), format!("{} {}: bytes() panicked: {}", $name, show(s.as_bytes()), m)),
             }
             match crate::ctx::guard(|| dview.bytes().collect::<Vec<u8>>()) {
                 Ok(got) => if got != want { $ctx.fail("C19.bytes", c19_feats($name, "deref.bytes", wf), format!("{}: Deref view bytes differ", $name)); },
-                Err(m) => $ctx.fail("C19.total", c19_feats($name, "deref.bytes", wf), format!("panicked: {}", m)),
+                Err(m) => $ctx.fail("C19.total", c19_total_feats($name, "deref.bytes", wf, &m), format!("panicked: {}", m)),
             }
             // chars / len / decode / == str
             $ctx.call("chars");
@@ -1067,22 +1077,22 @@ macro_rules! c19_typed {
             let dec = crate::ctx::guard(|| view.decode());
             match &wf_text {
                 Some(t) => {
-                    match &chars { Ok(c) => if c != t { $ctx.fail("C19.text", c19_feats($name, "chars", wf), format!("{} {}: chars() = {:?}, expected {:?}", $name, show(s.as_bytes()), c, t)); }, Err(m) => $ctx.fail("C19.total", c19_feats($name, "chars", wf), format!("{} {}: chars() panicked: {}", $name, show(s.as_bytes()), m)) }
-                    match &len { Ok(l) => if *l != t.chars().count() { $ctx.fail("C19.text", c19_feats($name, "len", wf), format!("{} {}: len() = {}, expected {}", $name, show(s.as_bytes()), l, t.chars().count())); }, Err(m) => $ctx.fail("C19.total", c19_feats($name, "len", wf), format!("len() panicked: {}", m)) }
-                    match &dec { Ok(d) => if d != t { $ctx.fail("C19.text", c19_feats($name, "decode", wf), format!("{} {}: decode() = {:?}, expected {:?}", $name, show(s.as_bytes()), d, t)); }, Err(m) => $ctx.fail("C19.total", c19_feats($name, "decode", wf), format!("decode() panicked: {}", m)) }
+                    match &chars { Ok(c) => if c != t { $ctx.fail("C19.text", c19_feats($name, "chars", wf), format!("{} {}: chars() = {:?}, expected {:?}", $name, show(s.as_bytes()), c, t)); }, Err(m) => $ctx.fail("C19.total", c19_total_feats($name, "chars", wf, &m), format!("{} {}: chars() panicked: {}", $name, show(s.as_bytes()), m)) }
+                    match &len { Ok(l) => if *l != t.chars().count() { $ctx.fail("C19.text", c19_feats($name, "len", wf), format!("{} {}: len() = {}, expected {}", $name, show(s.as_bytes()), l, t.chars().count())); }, Err(m) => $ctx.fail("C19.total", c19_total_feats($name, "len", wf, &m), format!("len() panicked: {}", m)) }
+                    match &dec { Ok(d) => if d != t { $ctx.fail("C19.text", c19_feats($name, "decode", wf), format!("{} {}: decode() = {:?}, expected {:?}", $name, show(s.as_bytes()), d, t)); }, Err(m) => $ctx.fail("C19.total", c19_total_feats($name, "decode", wf, &m), format!("decode() panicked: {}", m)) }
                     $ctx.call("eq-str");
                     match crate::ctx::guard(|| (*view == *t.as_str(), *view == *format!("{}x", t).as_str(), if t.is_empty() { false } else { *view == t[..t.len() - t.chars().last().unwrap().len_utf8()] })) {
                         Ok((same, longer, shorter)) => {
                             if !same { $ctx.fail("C19.eq", c19_feats($name, "eq-str", wf), format!("{} {} != its own decoded text {:?}", $name, show(s.as_bytes()), t)); }
                             if longer || shorter { $ctx.fail("C19.eq", c19_feats($name, "eq-str", wf), format!("{} {} compares equal to a different text", $name, show(s.as_bytes()))); }
                         }
-                        Err(m) => $ctx.fail("C19.total", c19_feats($name, "eq-str", wf), format!("== str panicked: {}", m)),
+                        Err(m) => $ctx.fail("C19.total", c19_total_feats($name, "eq-str", wf, &m), format!("== str panicked: {}", m)),
                     }
                 }
                 None => {
-                    if let Err(m) = &chars { $ctx.fail("C19.total", c19_feats($name, "chars", wf), format!("{} {}: chars() panicked: {}", $name, show(s.as_bytes()), m)); }
-                    if let Err(m) = &len { $ctx.fail("C19.total", c19_feats($name, "len", wf), format!("{} {}: len() panicked: {}", $name, show(s.as_bytes()), m)); }
-                    if let Err(m) = &dec { $ctx.fail("C19.total", c19_feats($name, "decode", wf), format!("{} {}: decode() panicked: {}", $name, show(s.as_bytes()), m)); }
+                    if let Err(m) = &chars { $ctx.fail("C19.total", c19_total_feats($name, "chars", wf, &m), format!("{} {}: chars() panicked: {}", $name, show(s.as_bytes()), m)); }
+                    if let Err(m) = &len { $ctx.fail("C19.total", c19_total_feats($name, "len", wf, &m), format!("{} {}: len() panicked: {}", $name, show(s.as_bytes()), m)); }
+                    if let Err(m) = &dec { $ctx.fail("C19.total", c19_total_feats($name, "decode", wf, &m), format!("{} {}: decode() panicked: {}", $name, show(s.as_bytes()), m)); }
                     // never equate ill-formed or overlong sequences with well-formed text
                     let lossy = String::from_utf8_lossy(&want).to_string();
                     let mut probes: Vec<String> = vec![lossy, String::new(), "/".into(), "\0".into(), "A".into(), "\u{7ff}".into()];
@@ -1093,7 +1103,7 @@ macro_rules! c19_typed {
                         match crate::ctx::guard(|| *view == *p.as_str()) {
                             Ok(true) => $ctx.fail("C19.equates", c19_feats($name, "eq-str", wf), format!("{} {} (octets {:02x?}, not well-formed UTF-8) compares equal to the well-formed text {:?}", $name, show(s.as_bytes()), want, p)),
                             Ok(false) => {}
-                            Err(m) => $ctx.fail("C19.total", c19_feats($name, "eq-str", wf), format!("{} {}: == str panicked: {}", $name, show(s.as_bytes()), m)),
+                            Err(m) => $ctx.fail("C19.total", c19_total_feats($name, "eq-str", wf, &m), format!("{} {}: == str panicked: {}", $name, show(s.as_bytes()), m)),
                         }
                     }
                 }
@@ -1130,7 +1140,7 @@ fn c19_owned(ctx: &mut Ctx, s: &str, kind: u64) {
                             ctx.fail("C19.bytes", c19_feats($name, "into_pct_string", wf), format!("{}Buf::into_pct_string of {}: text {} octets {:02x?}", $name, show(s.as_bytes()), show(&text), bytes));
                         }
                     }
-                    Err(m) => ctx.fail("C19.total", c19_feats($name, "into_pct_string", wf), format!("into_pct_string panicked: {}", m)),
+                    Err(m) => ctx.fail("C19.total", c19_total_feats($name, "into_pct_string", wf, &m), format!("into_pct_string panicked: {}", m)),
                 }
             }
         }};
@@ -1157,7 +1167,7 @@ macro_rules! c19_obj {
                     $ctx.fail("C19.bytes", { let mut f = c19_feats($name, "embedded.bytes", wf); f.push(("via", "embedded".into())); f }, format!("{} of {}: the accessor returns {} whose pct view has octets {:02x?}, but the component is {} with octets {:02x?}", $name, show($whole), show(&text), got, show($model_text), want));
                 }
             }
-            Err(m) => $ctx.fail("C19.total", { let mut f = c19_feats($name, "embedded.bytes", wf); f.push(("via", "embedded".into())); f }, format!("{} of {}: accessor or bytes() panicked: {}", $name, show($whole), m)),
+            Err(m) => $ctx.fail("C19.total", { let mut f = c19_total_feats($name, "embedded.bytes", wf, &m); f.push(("via", "embedded".into())); f }, format!("{} of {}: accessor or bytes() panicked: {}", $name, show($whole), m)),
         }
     }};
 }
@@ -2377,6 +2387,25 @@ pub fn c04_history(ctx: &mut Ctx, initial: &str, ops_text: &str, kind: u64, rout
 
 // =====================================================================  C15
 
+/// Is the value given by components the nearest dot-free value to `a` when a's normalised sequence
+/// cannot be spelled without dots (lone empty segment -> no segment; final '..' -> followed by the
+/// empty segment of a trailing '/')?  False when a is spellable.
+fn c15_nearest(a: &[u8], scheme: Option<&[u8]>, authority: Option<&[u8]>, zabs: bool, zsegs: &[&[u8]], query: Option<&[u8]>, fragment: Option<&[u8]>) -> bool {
+    let sa = model::split(a);
+    let (aabs, asg) = model::segments(sa.path);
+    let an = model::norm_seq(aabs, &asg);
+    let lone_empty = an.len() == 1 && an[0].is_empty();
+    let ends_dotdot = an.last().map_or(false, |l| *l == b"..");
+    if !lone_empty && !ends_dotdot { return false; }
+    let zn = model::norm_seq(zabs, zsegs);
+    let mut want: Vec<&[u8]> = if lone_empty { Vec::new() } else { an.clone() };
+    if ends_dotdot { want.push(b""); }
+    let comps = sa.scheme == scheme
+        && match (sa.authority, authority) { (None, None) => true, (Some(p), Some(q)) => model::eq_authority(p, q), _ => false }
+        && model::eq_opt_component(sa.query, query) && model::eq_opt_component(sa.fragment, fragment);
+    comps && (aabs == zabs || want.is_empty()) && want.len() == zn.len() && want.iter().zip(zn.iter()).all(|(x, y)| model::eq_component(x, y))
+}
+
 fn c15_feats(a: &[u8], bb: &[u8]) -> Feats {
     let x = model::split(a);
     let y = model::split(bb);
@@ -2434,7 +2463,12 @@ pub fn c15(ctx: &mut Ctx, a: &str, bb: &str) {
     let tm = model::resolve(b(bb), &rel);
     // ... which explains a failed round trip only if the reference itself is right (its RFC resolution
     // is the target) and the library's resolution is exactly the recorded deviation
-    let rel_is_right = model::eq_target(&tm, b(a));
+    let rel_is_right = model::eq_target(&tm, b(a)) || {
+        // ... or, when a cannot be spelled without dots, the nearest spellable value
+        let tsegs: Vec<&[u8]> = if tm.zone_a { tm.path_segs.iter().map(|x| &x[..]).collect() } else { model::segments(&tm.path).1 };
+        let tabs = if tm.zone_a { false } else { model::segments(&tm.path).0 };
+        c15_nearest(b(a), Some(&tm.scheme[..]), tm.authority.as_deref(), tabs, &tsegs, tm.query.as_deref(), tm.fragment.as_deref())
+    };
     let in_c06_class = tm.branch == "relative-path" && tm.empty_on_empty && rel_is_right;
     let f = || { let mut v = c15_feats(b(a), b(bb)); v.push(("resolution_hits_c06_finding", "no".into())); v };
     ctx.call("resolved");
@@ -2443,7 +2477,11 @@ pub fn c15(ctx: &mut Ctx, a: &str, bb: &str) {
         Ok((z, lib_eq)) => {
             let model_eq = model::eq_ref(&z, b(a));
             let hits_c06 = in_c06_class && c06_matches_quirk(&tm, b(bb), &rel, &z);
-            let f = || { let mut v = c15_feats(b(a), b(bb)); v.push(("resolution_hits_c06_finding", yn(hits_c06))); v };
+            // when a's normalised sequence cannot be spelled without dots (a lone empty segment, or a
+            // final '..'), the best a reference can do is the nearest dot-free value: no segment at all,
+            // resp. the same sequence followed by the empty segment of the trailing '/'
+            let best = { let sz = model::split(&z); let (zabs, zsg) = model::segments(sz.path); c15_nearest(b(a), sz.scheme, sz.authority, zabs, &zsg, sz.query, sz.fragment) };
+            let f = || { let mut v = c15_feats(b(a), b(bb)); v.push(("resolution_hits_c06_finding", yn(hits_c06))); v.push(("resolves_to_nearest_spellable_value", yn(best))); v };
             if !model_eq || !lib_eq {
                 ctx.fail("C15.roundtrip", f(), format!("a = {}, b = {}: a.relative_to(b) = {} which resolves against b to {} (model ==: {}, library ==: {})", show(b(a)), show(b(bb)), show(&rel), show(&z), model_eq, lib_eq));
             }
